@@ -639,7 +639,12 @@ def create_cases():
 
 
 def build_cases(tier="quick"):
-    return prank_cases() + resolve_prank_cases() + prank_arm_cases() + setter_cases() + create_cases()
+    # block-setting cheatcodes assign fields of ex.block in place: sibling paths must own their Block (C02/C20)
+    from contracts import c02, c20
+
+    ref = [Case(f"{PROP}/sevm.SEVM.create_branch#block-ownership", c.case, c.harness, replay=c.replay, sources=c.sources) for c in c02.path_cases() if "create_branch" in c.unit]
+    ref += [Case(f"{PROP}/" + c.unit.split("/", 1)[1] + "#block-ownership", c.case, c.harness, replay=c.replay, sources=c.sources) for c in c20.fork_cases() if c.unit.endswith(("create_branch", "run_message"))]
+    return prank_cases() + resolve_prank_cases() + prank_arm_cases() + setter_cases() + create_cases() + ref
 
 
 def grounds():
